@@ -670,9 +670,35 @@ static void run_seq(void)
 			int settled = settle();
 
 			seq_verify(what);
-			if (settled && step + 1 < len && vrt_state_seen(seq_state_key(), len - step - 1))
+			/* nosettle=2: the piled-up lazy resizes are drained at the end of the sequence, so two visits of a state have the
+			 * same futures only with the same number of remaining steps */
+			if (settled && step + 1 < len &&
+			    vrt_state_seen(vrt_param("nosettle", 0) == 2 ? vrt_mix(seq_state_key(), (unsigned long)(len - step)) : seq_state_key(),
+					   len - step - 1))
 				return;
 		}
+	}
+	if (!destroyed && vrt_param("nosettle", 0) == 2 && (cfg_flags & CDS_LFHT_AUTO_RESIZE)) {
+		/* the worker finally runs: whatever target the unserved requests left behind, it must park again (a worker that spins on
+		 * an unreachable target runs into the horizon) and leave a consistent table.  Neither "resize_initiated == 0" nor
+		 * "size == resize_target" is required here: a launcher that is overtaken by the worker between queueing the work and
+		 * setting resize_initiated leaves the flag set with nothing queued (later lazy requests are then dropped) - lazy
+		 * resizing is best effort and no listed property says otherwise */
+		int i, idle = 0;
+
+		WAIT_BEGIN();
+		for (i = 0; i < 400 && idle < 3; i++) {
+			vrt_yield();
+			if (pthread_mutex_trylock(&ht->resize_mutex) == 0) {	/* the worker resizes with this mutex held */
+				pthread_mutex_unlock(&ht->resize_mutex);
+				idle++;
+			} else
+				idle = 0;
+		}
+		WAIT_END();
+		VRT_CHECK(idle >= 3, "the resize worker still holds the resize mutex %d scheduling rounds after the last operation: the lazy "
+			  "resize does not terminate (size %lu, resize_target %lu)", i, ht_size_quiet(), ht->resize_target);
+		seq_verify("final drain");
 	}
 }
 
